@@ -135,6 +135,14 @@ def execute(call, objs):
         return cmp(call['op'], a, lit_value(call['lit']))
     if c == 'RCmpLit':
         return cmp(call['op'], lit_value(call['lit']), a)
+    if c == 'Problem':
+        prob = optyx.Problem()
+        (prob.minimize if call['op'] == 'minimize' else prob.maximize)(a)
+        if call['b']:
+            prob.subject_to(b)
+        if call['k']:
+            prob.subject_to(objs[call['k']])
+        return prob
     if c == 'MGet':
         k = call['k']
         def sl(i):
@@ -198,6 +206,9 @@ def kind_of(obj):
         return 'M'
     if isinstance(obj, MatrixExpression):
         return 'ME'
+    from optyx.problem import Problem
+    if isinstance(obj, Problem):
+        return 'PR'
     if isinstance(obj, Constraint):
         return 'C'
     if isinstance(obj, list) and obj and all(isinstance(x, Constraint) for x in obj):
@@ -244,6 +255,8 @@ def call_str(call, handles=None):
         return '%s %s %s' % (A, call['op'], L)
     if c == 'RCmpLit':
         return '%s %s %s' % (L, call['op'], A)
+    if c == 'Problem':
+        return 'Problem().%s(%s)%s%s' % (call['op'], A, '.subject_to(%s)' % B if call['b'] else '', '.subject_to(h%d)' % call['k'] if call['k'] else '')
     if c == 'MGet':
         def sl(i):
             t = SLICE_TAB[i - 1]
